@@ -764,7 +764,7 @@ func twinFault(r *prng.R, base Case) Case {
 	targets := map[int]int{} // op index -> k
 	cold := map[int]bool{}   // targets that get a commit + reopen directly before them
 	for j, m := 0, r.Range(1, 3); j < m && len(cands) > 0; j++ {
-		if len(remPresent) > 0 && r.Chance(35) {
+		if len(remPresent) > 0 && r.Chance(20) {
 			// Remove of a present key on a cold tree: the fetches of the two children of the
 			// first internal node before the descent are GetNode #2 / #3, a deeper one #4
 			t := remPresent[r.Intn(len(remPresent))]
